@@ -42,6 +42,7 @@ def check(ctx, report):
     mpint_sign(ctx, report)
     software_versions(ctx, report)
     eddsa_curves(ctx, report)
+    ecdsa_points(ctx, report)
     report.rule('C07.R8', 'name-lists: split at commas, order kept, unknown names preserved one by one')
     from ..textlists import string_array_table
     string_array_table(ctx, report, 'C07.R8', 'ssh')
@@ -544,3 +545,98 @@ def eddsa_curves(ctx, report, RULE='C07.R11'):
     except (Unsupported, Raised) as e:
         report.add(RULE, f.construct + '@tabulation', 'the EdDSA key parser left the subset the tabulation understands: %s' % e)
     report.floor(RULE, 2, 'EdDSA algorithm names')
+
+
+# ---- R12: the elliptic curve point of an ECDSA key --------------------------------------------------------------------------
+
+def ecdsa_points(ctx, report, RULE='C07.R12'):
+    """RFC 5656 3.1: Q is the SEC1 encoding of the point - 04 || x || y with both coordinates as wide as the field, leading zero
+    octets included.  SshHostKeyECDSABase._compose_host_key_params is evaluated (sa.miniexec) on keys whose coordinates start
+    with zero octets, with the dependency's ``octet_bit_string`` modelled as what it is (asn1crypto's ECPointBitString.from_coords:
+    as wide as the longer of the two numbers).  The composed blob is what the fingerprints and known_hosts lines are made of."""
+    import ast
+    from ..miniexec import Evaluator, Native, Obj, Raised, Unsupported, class_call_hook
+    report.rule(RULE, 'ECDSA host keys: the point is written as 04 || x || y in the width of the field, whatever the leading octets of the coordinates (RFC 5656 3.1, SEC1 2.3.3)')
+    c = ctx.model.try_cls('SshHostKeyECDSABase')
+    f = c.methods.get('_compose_host_key_params') if c is not None else None
+    if f is None:
+        report.error(RULE + ': SshHostKeyECDSABase._compose_host_key_params vanished')
+        return
+    report.touch(f)
+
+    class Params(Native):
+        def __init__(self, group, x, y):
+            self.named_group, self.point_x, self.point_y = group, x, y
+
+        @property
+        def octet_bit_string(self):
+            n = max((self.point_x.bit_length() + 7) // 8, (self.point_y.bit_length() + 7) // 8, 1)
+            return b'\x04' + self.point_x.to_bytes(n, 'big') + self.point_y.to_bytes(n, 'big')
+
+    class Composer(Native):
+        def __init__(self):
+            self.out = bytearray()
+
+        def compose_numeric(self, value, size):
+            self.out += int(value).to_bytes(size, 'big')
+
+        def compose_mpint(self, value, length):
+            self.out += int(value).to_bytes(length, 'big')
+
+        def compose_raw(self, value):
+            self.out += bytes(value)
+
+        def compose_bytes(self, value, size):
+            self.out += len(value).to_bytes(size, 'big') + bytes(value)
+
+        def compose_string(self, value, encoding, size):
+            self.compose_bytes(value.encode(encoding), size)
+
+        @property
+        def composed_bytes(self):
+            return bytearray(self.out)
+
+        @property
+        def composed_length(self):
+            return len(self.out)
+
+        composed = composed_bytes
+    GROUPS = [Obj(name='SECP256R1', value=Obj(size=256)), Obj(name='SECP384R1', value=Obj(size=384)), Obj(name='SECP521R1', value=Obj(size=521))]
+    CODES = ['nistp256', 'nistp384', 'nistp521']
+    identifiers = [Obj(name=g.name, value=Obj(named_group=g, code=code)) for g, code in zip(GROUPS, CODES)]
+
+    def extra(n, ev):
+        if ast.unparse(n.func) == 'ComposerBinary':
+            return Composer()
+        return NotImplemented
+
+    def names(name):
+        if name == 'SshEllipticCurveIdentifier':
+            return identifiers
+        raise Unsupported('free name ' + name)
+    hook = class_call_hook(c, extra, ctx.model)
+    nh = hook.name_hook_for(c.module, names)
+    params = [a.arg for a in f.node.args.args]
+    problems = {}
+    try:
+        for g, code in zip(GROUPS, CODES):
+            n = (g.value.size + 7) // 8
+            full = (1 << (g.value.size - 1)) | (int.from_bytes(b'\x5a' * n, 'big') >> (8 * n - g.value.size + 1))     # top bit of the field set
+            for lead_x, lead_y in ((0, 0), (1, 0), (0, 1), (1, 1), (2, 2)):
+                report.count(RULE)
+                x, y = full >> (8 * lead_x), (full - 5) >> (8 * lead_y)
+                comp = Composer()
+                me = Obj(public_key=Obj(params=Params(g, x, y)))
+                Evaluator(dict(zip(params, [me, comp])), hook, nh).function(f.node)
+                point = b'\x04' + x.to_bytes(n, 'big') + y.to_bytes(n, 'big')
+                want = len(code).to_bytes(4, 'big') + code.encode() + len(point).to_bytes(4, 'big') + point
+                if bytes(comp.out) != want:
+                    problems.setdefault('leading-zero' if lead_x or lead_y else 'plain',
+                                        'a %s key whose coordinates have %d and %d leading zero octets is written with a point of %d octets, SEC1 gives %d (04 and two coordinates of %d octets): '
+                                        'fingerprints and known_hosts lines are computed over other bytes than the key' % (code, lead_x, lead_y, len(bytes(comp.out)) - 8 - len(code), len(point), n))
+    except (Unsupported, Raised) as e:
+        report.add(RULE, f.construct + '@tabulation', 'the ECDSA key composer left the subset the tabulation understands: %s' % e)
+        return
+    for k, v in sorted(problems.items()):
+        report.add(RULE, '%s@point[%s]' % (f.construct, k), v)
+    report.floor(RULE, 15, 'curves x leading zero patterns')
